@@ -48,7 +48,13 @@ def run_case(rng, res, idx, tier):
         sp['factor_dir'] = rng.random() < 0.4
         compute = not (I == 1 and rng.random() < 0.3) and not (c % I == 0 and rng.random() < 0.2)
         tail = [('train',)] * (T - c) + [('train',)]
-        sp['history'] = [('train',)] * c + [('ckpt', compute)] + tail + ([('sd_only',)] if rng.random() < 0.3 else [])
+        # periodic saving: the same object may be asked for its state several times before the checkpoint that is restored
+        head = []
+        for t in range(c):
+            head.append(('train',))
+            if t < c - 1 and rng.random() < 0.3:
+                head.append(('sd_only',))
+        sp['history'] = head + [('ckpt', compute)] + tail + ([('sd_only',)] if rng.random() < 0.3 else [])
         policy = simdist.POLICIES[(idx + c) % len(simdist.POLICIES)]
         case = dict(idx=idx, spec=sp, position=c, policy=policy)
         run = neox.run(sp, seed=seed + c, policy=policy, stress=((idx + c) % 6 == 0))
@@ -95,7 +101,7 @@ def run_case(rng, res, idx, tier):
                     if not (torch.equal(layers[n]['A'], A) and torch.equal(layers[n]['G'], G)):
                         return res.violation(f'rank {r}: factors of layer {n} in the saved state differ from those held by its inverse worker', case)
         # ---- (3) restoration on the gathering ranks
-        e0 = [recs[r]['sd'][0] for r in range(W)]
+        e0 = [next(e for e in recs[r]['sd'] if 'after_load' in e) for r in range(W)]
         held = {}
         for r in range(W):
             held.update(e0[r]['held'])
